@@ -51,6 +51,12 @@ def run(ctx):
             dod, Lf, table = oracle.table_oracle(c["edges"], c["weights"], c["massive"], ext, c["D"])
             if not oracle.divergent_subsets(table):
                 cases.append(dict(c, ext=ext, table=table, dod=dod, loops=Lf, accepted=True, name=c["name"] + "+repeated_externals"))
+    from .. import samples as S_
+    cases += S_.big_dimension_cases(rng)          # D = 260 and D = 13 (pi^(D L/2) at D L = 13, 260)
+    for kind in ("repeated_weights", "weights_equal_dod") * (4 if ctx.quick else 15):
+        cc = S_.make_special_case(rng, kind)
+        if cc is not None:
+            cases.append(cc)
     # edges with a tiny weight: proper subsets with 0 < omega < 2^-52 are accepted and dominate J
     for tiny in (2.0 ** -60, 2.0 ** -55, 1e-20):
         for edges, w, massive, ext, D in (([(0, 1), (1, 2), (2, 0)], [tiny, 1.0, 1.0], [True, False, False], [0, 1, 2], 3),
@@ -213,6 +219,36 @@ def run(ctx):
             ctx.violation(f"cached normalisation {b2f(a['cached'])!r} differs from J(full) Gamma(dod)/prod Gamma(w) pi^(DL/2) = {cx!r}", r,
                           expected=cx, observed=b2f(a["cached"]))
 
+    # ---- graphs with 17 edges (131072 subsets; beyond any 16-slot scratch space): banana of 17 equal massive propagators, where J depends on the
+    # number of edges only: J(k) = k J(k-1)/omega(k-1), omega(k) = k w - (k-1) D/2 for 0 < k < 17, omega(0) = 1. Also 14 parallel edges in D = 1
+    # (13 loops: D L = 13) and one-loop graphs in D = 13
+    for nE, D, w in ((17, 1, 0.75), (14, 1, 0.625)) if ctx.quick else ((17, 1, 0.75), (14, 1, 0.625), (17, 2, 1.25), (18, 1, 0.75)):
+        r = dict(op="graph", D=D, edges=[[0, 1, f2b(w), True] for _ in range(nE)], ext=[0, 1])
+        a = run_harness([r], timeout=600)[0]
+        ctx.case(["banana", nE, D, w], nontrivial=True); ctx.count(f"banana{nE}.{a.get('status')}")
+        small = dict(r, edges=f"{nE} x [0, 1, {w}, massive]")
+        if a.get("status") != "ok":
+            ctx.violation(f"build of {nE} parallel massive edges (every proper subset convergent) returned {a.get('status')}: {str(a.get('msg', a.get('error')))[:200]}", small, observed=a.get("status")); continue
+        wq = Fraction(w)
+        om = [Fraction(1)] + [k * wq - Fraction((k - 1) * D, 2) for k in range(1, nE)]
+        Jk = [Fraction(1)]
+        for k in range(1, nE + 1):
+            Jk.append(k * Jk[k - 1] / om[k - 1])
+        bad = None
+        for mask, e in enumerate(a["entries"]):
+            k = bin(mask).count("1")
+            jv = b2f(e[2])
+            if not (math.isfinite(jv) and abs(jv - float(Jk[k])) <= 1e-10 * float(Jk[k])):
+                bad = (mask, k, jv, float(Jk[k])); break
+        if bad:
+            ctx.violation(f"{nE} parallel edges: J of a {bad[1]}-edge subset ({bad[0]:#b}) = {bad[2]!r}, the recursion J(k) = k J(k-1)/omega(k-1) gives {bad[3]!r}",
+                          small, expected=bad[3], observed=bad[2]); continue
+        from mpmath import mp, mpf, gamma as G, pi
+        mp.dps = 40
+        dod = nE * wq - Fraction((nE - 1) * D, 2)
+        cx = mpf(Jk[nE].numerator) / mpf(Jk[nE].denominator) * G(mpf(dod.numerator) / mpf(dod.denominator)) / G(mpf(w)) ** nE * pi ** (mpf((nE - 1) * D) / 2)
+        if not abs(mpf(b2f(a["cached"])) - cx) <= mpf(1e-10) * abs(cx):
+            ctx.violation(f"{nE} parallel edges, D = {D}: cached normalisation {b2f(a['cached'])!r}, expected {float(cx)!r}", small, expected=float(cx), observed=b2f(a["cached"]))
     # ---- the table and the normalisation of a sampler built through the PUBLIC path do not depend on the supplied signature (its shape
     # included): Graph::build_sampler with a fundamental signature, with surplus columns and with a missing column
     from .. import kin
